@@ -5,7 +5,8 @@ import OntVerif.Proofs.P2PMsgTop
 Property theorems only.  Model: `Model/P2PMsg.lean` (`types.ReadMessage`, `makeEmptyMessage`, the `Deserialization` /
 `Serialization` methods of 16 message shapes + unknown commands; the decoders that call into `core/types` or the crypto
 library return `Msg.opaque` and are explored by the harness only).  `Variant.asShipped` mirrors the tree as it is
-(`Addr.Deserialization` panics for `count ≥ 2^63`), `Variant.sound` mirrors it with `fixes/C24-addr-count.patch`.
+(`Addr.Deserialization` panics for `count ≥ 2^63`), `Variant.sound` mirrors it with `fixes/C24-addr-count.patch`
+(`if count > source.Len() { return io.ErrUnexpectedEOF }` before the loop).
 The checksum `H` is an abstract function; `magic` is `config.DefConfig.P2PNode.NetworkMagic`.
 -/
 namespace OntVerif.Props.C24
@@ -20,10 +21,12 @@ def C24_full_statement (v : Variant) : Prop :=
     | .err _ => True
     | .ok (m, _) => m.isOpaque = true ∨ encode m = p
 
-/-- **No panic** (repaired tree): every payload of every command, of any length below 2^64, is decoded to a message or an
-error.  Every Go slice expression reached (`s[off:end]` in the source, `NodeAddrs[:count]`, `Blk[:blkCnt]`) is in range. -/
-theorem C24_total (cmd p : Bytes) (hl : p.length < two64) : decodeAll .sound cmd p ≠ .panic :=
-  (spec_decodePayload cmd).noPanic (St.init p) ⟨by simp [St.init], by simpa [St.init] using hl⟩
+/-- **No panic** (repaired tree): every payload of every command, of any length below 2^63 (a Go `int`; `ReadMessage` caps it
+at `MAX_PAYLOAD_LEN`), is decoded to a message or an error.  Every Go slice expression reached (`s[off:end]` in the source,
+`NodeAddrs[:count]`, `Blk[:blkCnt]`) is in range. -/
+theorem C24_total (cmd p : Bytes) (hl : p.length < 2 ^ 63) : decodeAll .sound cmd p ≠ .panic :=
+  (spec_decodePayload cmd).noPanic (St.init p) ⟨by simp [St.init], by simp [St.init]; unfold two64; omega⟩
+    (by simpa [St.init] using hl)
 
 /-- `ReadMessage` never panics on any byte stream, any magic, any checksum function. -/
 theorem C24_readMessage_total (magic : Nat) (H : Bytes → Bytes) (stream : Bytes) (hl : stream.length < two64) :
@@ -45,16 +48,17 @@ theorem C24_asShipped_counterexample : ¬ C24_full_statement .asShipped := by
   exact this
 
 /-- as shipped, a panic can only come from the `addr` decoder -/
-theorem C24_total_asShipped_partial (cmd p : Bytes) (hl : p.length < two64) (hc : cmd ≠ cAddr) :
+theorem C24_total_asShipped_partial (cmd p : Bytes) (hl : p.length < 2 ^ 63) (hc : cmd ≠ cAddr) :
     decodeAll .asShipped cmd p ≠ .panic := by
   unfold decodeAll
   rw [decodePayload_variant cmd hc]
   exact C24_total cmd p hl
 
-/-- the patch changes nothing but the panic: wherever the shipped decoder returns, the repaired one returns the same -/
-theorem C24_patch_conservative (cmd p : Bytes) (h : decodeAll .asShipped cmd p ≠ .panic) :
+/-- the patch changes nothing but the panic: wherever the shipped decoder returns (a message *or* an error), the
+repaired one returns exactly the same -/
+theorem C24_patch_conservative (cmd p : Bytes) (hl : p.length < 2 ^ 63) (h : decodeAll .asShipped cmd p ≠ .panic) :
     decodeAll .asShipped cmd p = decodeAll .sound cmd p :=
-  decodeAll_conservative cmd p h
+  decodeAll_conservative cmd p hl h
 
 /-- **decode ∘ encode = id** for every well-formed message of every modelled type (both variants): the whole payload is
 consumed and nothing is dropped.  `Msg.wf` = field ranges of the Go types, lists within the caps (`Addr`, `Inv`: 64), peer
@@ -72,13 +76,13 @@ theorem C24_rt_frame (v : Variant) (magic : Nat) (H : Bytes → Bytes) (m : Msg)
 /-- **encode ∘ decode = id on canonical payloads**: if decoding `p` succeeds, consumes all of `p` and never had to drop
 information (no ignored `irregular` flag, no list cut to its cap, no `SoftVersion` fallback — `canonicalEnd`), then the
 re-serialization of the decoded message is `p`. -/
-theorem C24_reencode_partial (v : Variant) (cmd p : Bytes) (hl : p.length < two64) (m : Msg) (st : St)
+theorem C24_reencode_partial (v : Variant) (cmd p : Bytes) (hl : p.length < 2 ^ 63) (m : Msg) (st : St)
     (h : decodeAll v cmd p = .ok (m, st)) (hc : canonicalEnd p st = true) (ho : m.isOpaque = false) :
     encode m = p := by
   cases v with
   | sound => exact decodeAll_reencode cmd p hl m st h hc ho
   | asShipped =>
-    have := decodeAll_conservative cmd p (by rw [h]; simp)
+    have := decodeAll_conservative cmd p hl (by rw [h]; simp)
     rw [h] at this
     exact decodeAll_reencode cmd p hl m st this.symm hc ho
 
@@ -106,10 +110,11 @@ theorem C24_header_checks (v : Variant) (magic : Nat) (H : Bytes → Bytes) (str
 
 /-- **Allocation in the `Addr` loop**: every `append` is paid for by 44 payload bytes (unconditionally, also when the list
 is cut afterwards): `n` iterations ⇒ `8 + 44·n ≤ |p|`. -/
-theorem C24_alloc_addr (p : Bytes) (hl : p.length < two64) (m : Msg) (st : St)
+theorem C24_alloc_addr (p : Bytes) (hl : p.length < 2 ^ 63) (m : Msg) (st : St)
     (h : decAddr .sound (St.init p) = .ok (m, st)) :
     ∃ l n, m = .addr l ∧ l.length ≤ n ∧ 8 + 44 * n ≤ p.length := by
-  have hs := spec_decAddr_alloc (St.init p) ⟨by simp [St.init], by simpa [St.init] using hl⟩
+  have hs := spec_decAddr_alloc (St.init p) ⟨by simp [St.init], by simp [St.init]; unfold two64; omega⟩
+    (by simpa [St.init] using hl)
   rw [h] at hs
   obtain ⟨adv, _, r⟩ := hs
   obtain ⟨l, n, hm, hn, hw⟩ := r (by intro h; cases h)
